@@ -293,7 +293,167 @@ def oracle_sac(ctx: Ctx, case):
     )
 
 
-PARTS = {"dqn": oracle_dqn, "sac": oracle_sac}
+# ----------------------------------------------------------------------------- through iteration()
+# (algo, nS, nA, act_shape, buffer_size, learning_starts, num_envs, num_steps); batch_size = all rows stored after one iteration
+IT_COMBOS = {
+    "dqn-1env": ("DQN", 4, 3, None, 64, 5, 1, 4),
+    "dqn-2env": ("DQN", 3, 2, None, 40, 2, 2, 4),
+    "sac-1env": ("SAC", 4, 3, (), 64, 4, 1, 3),
+    "sac-2env": ("SAC", 4, 3, (), 50, 2, 2, 4),
+}
+
+
+@functools.lru_cache(maxsize=None)
+def _it_algo(combo):
+    name, nS, nA, shape, B, L, E, S = IT_COMBOS[combo]
+    bs = E * (L + S)
+    if name == "DQN":
+        return DQN(buffer_size=B, learning_starts=L, num_envs=E, num_steps=S, batch_size=bs, learning_rate=1e-2, target_update_interval=3)
+    return SAC(buffer_size=B, learning_starts=L, num_envs=E, num_steps=S, batch_size=bs, policy_lr=0.0, q_lr=1e-2, q_width_size=8, q_depth=1)
+
+
+@eqx.filter_jit
+def _it_reset(algo, env, policy, key, cb):
+    return algo.reset(env, policy, key=key, callback=cb)
+
+
+@eqx.filter_jit
+def _it_iterate(algo, state, key, cb):
+    return algo.iteration(state, key=key, callback=cb)
+
+
+def _stored_rows(buf, E):
+    pos = np.asarray(buf.position).reshape(-1)
+
+    def take(x):
+        x = np.asarray(x)
+        return x[: pos[0]] if E == 1 else np.concatenate([x[e, : pos[e]] for e in range(E)])
+
+    return {f: jax.tree.map(take, getattr(buf, f)) for f in ("observations", "next_observations", "actions", "rewards", "dones", "timeouts", "states", "next_states")}, int(pos.sum())
+
+
+def _leaves_close(ctx, got, exp, bucket, tags, **kw):
+    ok = True
+    for lg, le in zip(jax.tree.leaves(eqx.filter(got, eqx.is_inexact_array)), jax.tree.leaves(eqx.filter(exp, eqx.is_inexact_array))):
+        ok &= bool(np.allclose(np.asarray(lg), np.asarray(le), rtol=1e-7, atol=1e-9))
+    return ok
+
+
+def oracle_iteration(ctx: Ctx, case):
+    """The real iteration() from a state whose target networks differ from the online ones: the online networks it returns
+    equal one optimiser step on the semi-gradient of the TD objective whose targets come from the *state's target networks*
+    (batch = every stored row, so the sample is a permutation and the objective is known without the sampling key)."""
+    from vlib.doubles import StashCallback, TableSACPolicy
+
+    combo = case["combo"]
+    name, nS, nA, shape, B, L, E, S = IT_COMBOS[combo]
+    spec = case["spec"]
+    env = mdp.make_env(spec)
+    gamma = case["gamma"]
+    algo = eqx.tree_at(lambda a: a.gamma, _it_algo(combo), jnp.asarray(gamma))
+    cb = StashCallback(())
+    tags = {"algo": name, "via": "iteration"}
+    if name == "DQN":
+        policy = TableQPolicy(env, spec, case["q"], case["epsilon"], w=case["w"])
+        target = TableQPolicy(env, spec, case["q_t"], case["epsilon"], w=case["w_t"])
+        state = _it_reset(algo, env, policy, jr.key(case["key"]), cb)
+        state = eqx.tree_at(lambda s_: s_.target_policy, state, target)
+    else:
+        policy = TableSACPolicy(env, spec, case["atab"], 0.0)
+        state = _it_reset(algo, env, policy, jr.key(case["key"]), cb)
+        k1, k2 = jr.split(jr.key(case["k_nets"]))
+        like = state.qf1
+        fresh = lambda k: jax.tree.map(lambda x, n: n if eqx.is_inexact_array(x) else x, like, jax.tree.map(lambda x: x, _randomised(like, k)))
+        state = eqx.tree_at(lambda s_: (s_.qf1_target, s_.qf2_target), state, (fresh(k1), fresh(k2)))
+    new = _it_iterate(algo, state, jr.key(case["key"] + 1), cb)
+    rows, n = _stored_rows(new.step_state.buffer, E)
+    if n != E * (L + S):
+        raise AssertionError("harness: unexpected number of stored rows")  # C05's business; the objective below needs all rows
+    r = np.asarray(rows["rewards"], np.float64)
+    terminated = np.asarray(rows["dones"], bool) & ~np.asarray(rows["timeouts"], bool)
+    fl = {"timeout": bool(np.asarray(rows["timeouts"]).any()), "terminated": bool(terminated.any()), "ordinary": bool((~np.asarray(rows["dones"], bool)).any())}
+    obs, nobs = jax.tree.map(jnp.asarray, rows["observations"]), jax.tree.map(jnp.asarray, rows["next_observations"])
+    if name == "DQN":
+        sts, nsts = jax.tree.map(jnp.asarray, rows["states"]), jax.tree.map(jnp.asarray, rows["next_states"])
+        acts = np.asarray(rows["actions"]).astype(int)
+        qn_on = np.asarray(jax.vmap(policy.q_values)(nsts, nobs)[1], np.float64)
+        qn_tg = np.asarray(jax.vmap(target.q_values)(nsts, nobs)[1], np.float64)
+        best = qn_on.argmax(-1)
+        ar = np.arange(n)
+        ys = {
+            "ok": r + gamma * (1.0 - terminated) * qn_tg[ar, best],
+            "target-from-online-network": r + gamma * (1.0 - terminated) * qn_on[ar, best],
+            "not-double-dqn": r + gamma * (1.0 - terminated) * qn_tg.max(-1),
+            "bootstraps-through-termination": r + gamma * qn_tg[ar, best],
+            "no-bootstrap-through-truncation": r + gamma * (1.0 - np.asarray(rows["dones"], bool)) * qn_tg[ar, best],
+        }
+
+        def step(y):
+            yj = jnp.asarray(y)
+
+            def ref_loss(pol):
+                q = jax.vmap(pol.q_values)(sts, obs)[1]
+                return jnp.mean(jnp.square(q[jnp.arange(n), jnp.asarray(acts)] - yj)) / 2
+
+            g = eqx.filter_grad(ref_loss)(policy)
+            upd, _ = algo.optimizer.update(g, state.opt_state, eqx.filter(policy, eqx.is_inexact_array))
+            return eqx.apply_updates(policy, upd)
+
+        got = new.policy
+        mixed = bool((best != qn_tg.argmax(-1)).any()) and not np.allclose(ys["ok"], ys["target-from-online-network"])
+    else:
+        acts = jnp.asarray(rows["actions"], dtype=float)
+        a2 = jax.vmap(lambda o: policy.action_and_log_prob(None, o, key=jr.key(0))[1])(nobs)
+        f = lambda net, o, a_: np.asarray(jax.vmap(net)(o, a_), np.float64)
+        q1t, q2t = f(state.qf1_target, nobs, a2), f(state.qf2_target, nobs, a2)
+        q1o, q2o = f(state.qf1, nobs, a2), f(state.qf2, nobs, a2)
+        nt = 1.0 - terminated
+        ys = {
+            "ok": r + gamma * nt * np.minimum(q1t, q2t),
+            "target-from-online-critics": r + gamma * nt * np.minimum(q1o, q2o),
+            "second-critic-not-the-target-network": r + gamma * nt * np.minimum(q1t, q2o),
+            "first-critic-not-the-target-network": r + gamma * nt * np.minimum(q1o, q2t),
+            "max-of-target-critics": r + gamma * nt * np.maximum(q1t, q2t),
+            "bootstraps-through-termination": r + gamma * np.minimum(q1t, q2t),
+            "no-bootstrap-through-truncation": r + gamma * (1.0 - np.asarray(rows["dones"], bool)) * np.minimum(q1t, q2t),
+        }
+        q_params = (eqx.filter(state.qf1, eqx.is_inexact_array), eqx.filter(state.qf2, eqx.is_inexact_array))
+
+        def step(y):
+            yj = jnp.asarray(y)
+
+            def ref_loss(qs):
+                a1 = jax.vmap(qs[0])(obs, acts)
+                a2_ = jax.vmap(qs[1])(obs, acts)
+                return 0.5 * jnp.mean((a1 - yj) ** 2) + 0.5 * jnp.mean((a2_ - yj) ** 2)
+
+            g = eqx.filter_grad(ref_loss)((state.qf1, state.qf2))
+            upd, _ = algo.q_optimizer.update(g, state.q_opt_state, q_params)
+            return eqx.apply_updates((state.qf1, state.qf2), upd)
+
+        got = (new.qf1, new.qf2)
+        mixed = bool((q1t < q2t).any() and (q1t > q2t).any())
+    if not _leaves_close(ctx, got, step(ys["ok"]), None, tags):
+        for nm, y in ys.items():
+            if nm != "ok" and _leaves_close(ctx, got, step(y), None, tags):
+                ctx.fail(f"C07/iteration/{nm}", tags=tags, combo=combo)
+                break
+        else:
+            ctx.fail("C07/iteration/update-not-the-step-on-the-td-objective-with-the-states-target-networks", tags=tags, combo=combo)
+    ctx.count(
+        nontrivial=mixed and (fl["timeout"] or fl["terminated"]),
+        classes=[k for k, v in fl.items() if v] + ["mixed"] * mixed + [combo],
+        key=[combo, fl["timeout"], fl["terminated"], mixed, case["key"] % 128],
+    )
+
+
+def _randomised(tree, key):
+    leaves, treedef = jax.tree.flatten(tree)
+    keys = jr.split(key, len(leaves))
+    return jax.tree.unflatten(treedef, [jr.normal(k, x.shape, x.dtype) * 0.7 if eqx.is_inexact_array(x) else x for k, x in zip(keys, leaves)])
+
+
+PARTS = {"dqn": oracle_dqn, "sac": oracle_sac, "iteration": oracle_iteration}
 
 
 # ----------------------------------------------------------------------------- strategies
@@ -348,6 +508,26 @@ def sac_cases(draw, B):
     return case
 
 
+@st.composite
+def iteration_cases(draw, combo):
+    name, nS, nA, shape, B, L, E, S = IT_COMBOS[combo]
+    spec = draw(mdp.mdp_specs(fixed_sizes=(nS, nA), act_kind="discrete" if name == "DQN" else "box", act_shape=shape if shape is not None else (), fixed_time_limit="some", time_limits=(1, 2, 3, 4, 6)))
+    case = {"combo": combo, "spec": spec, "key": draw(st.integers(0, 2**31 - 100)), "gamma": draw(st.sampled_from([0.99, 0.9, 0.5, 1.0]))}
+    cell = st.floats(-3, 3, allow_nan=False).map(lambda x: round(x, 3))
+    if name == "DQN":
+        for k in ("q", "q_t"):
+            case[k] = [[draw(cell) for _ in range(nA)] for _ in range(nS)]
+        stateful = draw(st.booleans())
+        for k in ("w", "w_t"):
+            case[k] = [draw(cell) if stateful else 0.0 for _ in range(nA)]
+        case["epsilon"] = draw(st.sampled_from([0.3, 1.0, 0.05]))
+    else:
+        low, high = spec["act_low"], spec["act_high"]
+        case["atab"] = [draw(st.floats(low, high, allow_nan=False).map(lambda x: round(x, 3))) for _ in range(nS)]
+        case["k_nets"] = draw(st.integers(0, 2**31 - 1))
+    return case
+
+
 def run(ctx: Ctx):
     ctx.rule = (
         "Generated batches (rewards, all done/timeout combinations, actions, states), gamma, alpha and network parameters "
@@ -355,7 +535,10 @@ def run(ctx: Ctx):
         "DQN.dqn_loss value and online gradient vs float64 reference r+gamma*(1-terminated)*Q_tgt(s',argmax Q_on(s')); "
         "SAC.sac_train on a buffer holding exactly batch_size rows with a deterministic policy double: reported q_loss, the critic "
         "update (Adam step on the semi-gradient) and critic invariance to the actor update. Non-trivial: batch with a timeout row, a "
-        "true-termination row and an ordinary row, online/target argmax differing (DQN) or min over critics mixed (SAC)."
+        "true-termination row and an ordinary row, online/target argmax differing (DQN) or min over critics mixed (SAC). "
+        "Part iteration: the real DQN/SAC reset()+iteration() on generated finite MDPs (1 and 2 envs) from a state whose target "
+        "networks were replaced by independent ones, batch_size = every stored row: the returned online networks equal one optimiser "
+        "step on the semi-gradient of the TD objective built from the state's target networks (alternatives are diagnosed by name)."
     )
     ctx.assumptions = ["the networks' own per-row outputs are trusted (q_values / SoftQNetwork.__call__)", "x64", "optax.adam as the configured optimiser"]
     for B in (1, 6, 16):
@@ -363,5 +546,8 @@ def run(ctx: Ctx):
             ctx.run_given("dqn", dqn_cases(B, kind), oracle_dqn, ctx.n(150, 4000))
     for B in (1, 6, 16) if not ctx.quick else (6, 16):
         ctx.run_given("sac", sac_cases(B), oracle_sac, ctx.n(100, 2500))
+    for combo in IT_COMBOS:
+        ctx.run_given("iteration", iteration_cases(combo), oracle_iteration, ctx.n(40, 800), shrink=False)
+    ctx.require_fraction("iteration", "nontrivial", 0.2)
     ctx.require_fraction("dqn", "nontrivial", 0.05)
     ctx.require_fraction("sac", "nontrivial", 0.05)
